@@ -131,6 +131,10 @@ pub fn extras() -> Vec<&'static str> {
         // auxiliary energy as the only electricity component; a step with very little on-site production next to a large one
         "1,CONSUMO,CAL,GASNATURAL,190,150,100\n1,AUX,20,15,10",
         "CONSUMO,ILU,ELECTRICIDAD,5000,5000,5000\nPRODUCCION,EL_INSITU,20000,15,0",
+        // a pump group declared only through its output and its auxiliaries (no CONSUMO line), PV that matches the auxiliaries step by step
+        "1,CONSUMO,CAL,GASNATURAL,100,80,60\n2,SALIDA,CAL,50,40,30\n2,AUX,4,3,2\n3,PRODUCCION,EL_INSITU,4,3,2",
+        // two identical consecutive lines (two equal PV fields, two equal boilers) next to a cogenerator: both count
+        "1,CONSUMO,ILU,ELECTRICIDAD,100,100,100\n2,PRODUCCION,EL_INSITU,40,60,10\n2,PRODUCCION,EL_INSITU,40,60,10\n3,PRODUCCION,EL_COGEN,50,50,50\n3,CONSUMO,COGEN,GASNATURAL,120,120,120\n4,CONSUMO,CAL,GASNATURAL,30,30,30\n4,CONSUMO,CAL,GASNATURAL,30,30,30",
         // a gas machine that heats and cools (cooling output declared negative) with auxiliaries, little lighting and PV
         "1,CONSUMO,CAL,GASNATURAL,100,30,0\n1,CONSUMO,REF,GASNATURAL,0,30,300\n1,SALIDA,CAL,90,30,0\n1,SALIDA,REF,0,-30,-270\n1,AUX,4,2,6\n2,CONSUMO,ILU,ELECTRICIDAD,5,5,2\n0,PRODUCCION,EL_INSITU,10,10,10",
         // a heat pump for two services that is idle in one step but keeps consuming auxiliary energy, a chiller, PV
